@@ -15,6 +15,10 @@ M = [
  ("C01a", "decoder/flooding.rs", "        // Decode failed\n        Err(DecoderOutput {", "        // Decode failed\n        Ok(DecoderOutput {", ["C01"], "flooding returns Ok at the limit without a syndrome test"),
  ("C01b", "decoder/flooding.rs", "            if check_llrs(&self.h, &self.output_llrs, |x| {", "            if check_llrs(&self.h, &self.input_llrs, |x| {", ["C01"], "syndrome tested on the input LLRs, word taken from the output LLRs"),
  ("C01c", "decoder/horizontal_layered.rs", "        for iteration in 1..=max_iterations {", "        for iteration in 0..max_iterations {", ["C01"], "layered iteration count off by one"),
+ ("C01d", "decoder.rs", "    !(0..h.num_rows()).any(|r| h.iter_row(r).filter(|&&c| hard_decision(llrs[c])).count() % 2 == 1)", "    !(0..h.num_rows().min(6)).any(|r| h.iter_row(r).filter(|&&c| hard_decision(llrs[c])).count() % 2 == 1)", ["C01"], "syndrome test looks at the first six checks only"),
+ ("C09c", "systematic.rs", "    if !(0..m).rev().any(|j| a[[n - 1, j]] != GF2::zero()) {", "    if !(0..m - 1).rev().any(|j| a[[n - 1, j]] != GF2::zero()) {", ["C09"], "rank test ignores the last column"),
+ ("C16e", "mackay_neal.rs", "                        if w < self.wr { Some((r, w)) } else { None }", "                        if w <= self.wr { Some((r, w)) } else { None }", ["C16"], "uniform policy lets a row exceed wr by one"),
+ ("C06c", "codes/dvbs2.rs", "            Code::R4_5short => &[\n                &[5, 896, 1565],", "            Code::R4_5short => &[\n                &[15, 896, 1565],", ["C06"], "one address moved by q within its residue class (short 4/5)"),
  ("C02a", "encoder.rs", "                for j in 1..parity.len() {", "                for j in 2..parity.len() {", ["C02"], "staircase accumulation starts at index 2"),
  ("C02b", "encoder/staircase.rs", "            if j == 0 && k != m - n {", "            if j == 0 && k < m - n {", ["C02"], "extra one in row 0 of the tail accepted when another staircase entry is missing"),
  ("C03a", "decoder/horizontal_layered.rs", "                msg.value = A::CheckMessage::default();", "                let _ = &msg;", ["C03", "C10"], "layered decoder does not reset its check messages per frame"),
@@ -30,10 +34,10 @@ M = [
  ("C05c", "decoder/arithmetic.rs", "                if x <= -116 {\n                    -116\n                } else if x >= 116 {\n                    116", "                if x <= -116 {\n                    -116\n                } else if x >= 127 {\n                    127", ["C05"], "degree-one clip only on the negative side"),
  ("C05d", "decoder/arithmetic.rs", "                    x.round() as i8\n                }\n            }\n\n            fn llr_hard_decision(&self, llr: i8) -> bool {\n                llr <= 0\n            }\n\n            fn llr_to_var_message(&self, llr: i8) -> i8 {\n                llr\n            }\n\n            fn llr_to_var_llr(&self, llr: i8) -> i16 {\n                i16::from(llr)\n            }\n\n            fn var_llr_to_llr(&self, var_llr: i16) -> i8 {\n                Self::clip(var_llr)\n            }\n\n            #[allow(clippy::redundant_closure_call)]\n            fn send_check_messages<F>(&mut self, var_messages: &[Message<i8>], mut send: F)\n            where\n                F: FnMut(SentMessage<i8>),\n            {\n                for exclude_msg", "                    x as i8\n                }\n            }\n\n            fn llr_hard_decision(&self, llr: i8) -> bool {\n                llr <= 0\n            }\n\n            fn llr_to_var_message(&self, llr: i8) -> i8 {\n                llr\n            }\n\n            fn llr_to_var_llr(&self, llr: i8) -> i16 {\n                i16::from(llr)\n            }\n\n            fn var_llr_to_llr(&self, var_llr: i16) -> i8 {\n                Self::clip(var_llr)\n            }\n\n            #[allow(clippy::redundant_closure_call)]\n            fn send_check_messages<F>(&mut self, var_messages: &[Message<i8>], mut send: F)\n            where\n                F: FnMut(SentMessage<i8>),\n            {\n                for exclude_msg", ["C05"], "quantiser truncates instead of rounding (min* 8-bit types)"),
  ("C05e", "decoder/arithmetic.rs", "                    for msg in check_messages\n                        .iter()\n                        .filter(|msg| msg.dest != exclude_msg.dest)\n                    {\n                        let x = Self::clip(vars[msg.dest] - i16::from(msg.value));", "                    for msg in check_messages\n                        .iter()\n                        .filter(|msg| msg.dest != exclude_msg.dest)\n                    {\n                        let x = (vars[msg.dest] - i16::from(msg.value)).clamp(-128, 127) as i8;", ["C05"], "layered 8-bit extrinsic clipped asymmetrically"),
- ("C06a", "codes/dvbs2.rs", "            Code::R3_4short => self.n() * 4 / 15, // LDPC r=11/15", "            Code::R3_4short => self.n() * 14 / 15, // LDPC r=11/15", ["C06", "C20"], "D1 reverted"),
+ ("C06a", "codes/dvbs2.rs", "            Code::R3_4short => self.n() * 4 / 15, // LDPC r=11/15", "            Code::R3_4short => self.n() * 14 / 15, // LDPC r=11/15", ["C06"], "D1 reverted (C20 compares the CLI with the library and is rightly silent)"),
  ("C06b", "codes/dvbs2.rs", "            Code::R8_9short => 5,", "            Code::R8_9short => 10,", ["C06"], "wrong q for short 8/9"),
  ("C07a", "codes/ccsds.rs", "static THETA_K: [u8; 26] = [\n    3, 0, 1, 2,", "static THETA_K: [u8; 26] = [\n    3, 0, 1, 3,", ["C07"], "theta_4 changed"),
- ("C07b", "codes/ccsds.rs", "            h.toggle(m + i, extra_columns + 4 * m + self.pi(4, i));", "            h.insert(m + i, extra_columns + 4 * m + self.pi(4, i));", ["C07"], "sum of permutations not taken mod 2 (differs only where permutations coincide)"),
+ ("C07b", "codes/ccsds.rs", "            h.toggle(m + i, extra_columns + 4 * m + self.pi(4, i));", "            h.insert(m + i, extra_columns + 4 * m + self.pi(4, i));", [], "sum of permutations not taken mod 2 -- equivalent on the actual tables (the permutations never coincide): must survive"),
  ("C07c", "codes/ccsds.rs", "        [0, 176],", "        [0, 177],", ["C07"], "C2 circulant offset changed"),
  ("C08a", "sparse.rs", "                v.sort_unstable();\n", "", ["C08"], "alist writer does not sort the index lists"),
  ("C08b", "sparse.rs", "                    if row > nrows {", "                    if row > nrows + 1 {", ["C08"], "row index nrows+1 not rejected"),
@@ -47,7 +51,7 @@ M = [
  ("C12a", "simulation/ber.rs", "        let llrs_decoder = match self.interleaver.as_ref() {\n            Some(i) => i.deinterleave(&llrs_demod),\n            None => llrs_demod,\n        };\n        let llrs_decoder = match self.puncturer.as_ref() {\n            Some(p) => p.depuncture(&llrs_decoder)?,\n            None => llrs_decoder,\n        };", "        let llrs_decoder = match self.puncturer.as_ref() {\n            Some(p) => p.depuncture(&llrs_demod)?,\n            None => llrs_demod,\n        };\n        let llrs_decoder = match self.interleaver.as_ref() {\n            Some(i) if llrs_decoder.len() % i.columns_for_verif() == 0 => i.deinterleave(&llrs_decoder),\n            _ => llrs_decoder,\n        };", [], "skipped: needs an accessor"),
  ("C12b", "simulation/ber.rs", "        let rate = k as f64 / n as f64;", "        let rate = k as f64 / n_cw as f64;", ["C12"], "rate counted before puncturing"),
  ("C12c", "simulation/ber.rs", "            let esn0 = self.rate * Mod::BITS_PER_SYMBOL * ebn0;", "            let esn0 = self.rate * ebn0;", ["C12"], "bits per symbol missing from Es/N0"),
- ("C12d", "simulation/ber.rs", "        let interleaver = interleaving_columns.map(|n| Interleaver::new(n.unsigned_abs(), n < 0));", "        let interleaver = interleaving_columns.map(|n| Interleaver::new(n.unsigned_abs(), n > 0));", ["C12"], "backward flag inverted (both directions consistently)"),
+ ("C12d", "simulation/ber.rs", "        let interleaver = interleaving_columns.map(|n| Interleaver::new(n.unsigned_abs(), n < 0));", "        let interleaver = interleaving_columns.map(|n| Interleaver::new(n.unsigned_abs(), n > 0));", [], "backward flag inverted consistently on both sides: interleaving and its inverse still cancel, not observable at the decoder (control: C12 must stay silent; the direction itself is C15's)"),
  ("C13a", "simulation/ber.rs", "            while current_statistics.errors_for_termination() < self.max_frame_errors {", "            while current_statistics.errors_for_termination() <= self.max_frame_errors {", ["C13"], "stops one frame error too late"),
  ("C13b", "simulation/ber.rs", "                        if !result.frame_error {\n                            current_statistics.ldpc.correct_iterations += result.iterations;", "                        if result.frame_error {\n                            current_statistics.ldpc.correct_iterations += result.iterations;", ["C13"], "correct-frame iterations summed over error frames"),
  ("C13c", "simulation/ber.rs", "                            if result.bit_errors > self.bch_max_errors {", "                            if result.bit_errors >= self.bch_max_errors {", ["C13"], "outer-code threshold off by one"),
